@@ -71,7 +71,11 @@ func runFieldStreams(out *vOut, r *rand.Rand, n int) {
 			if foreign {
 				fpkg = other
 			}
-			fld := types.NewField(token.NoPos, fpkg, names[p], ft, false)
+			// one field in three is an embedded one (go/types: Anonymous/Embedded): the selection rules treat it like any
+			// other field.  The choice is a function of (case, name) and does not consume the stream's random numbers, so
+			// the cases of older seeds stay as they were.
+			embedded := (uint32(i)*2654435761+uint32(p)*40503)>>9%3 == 0
+			fld := types.NewField(token.NoPos, fpkg, names[p], ft, embedded)
 			fields = append(fields, fld)
 			tgs = append(tgs, tg.tag)
 			decl = append(decl, fmt.Sprintf("%s %d %d %d", eq(names[p]), ty, b2i(tg.prevented), b2i(foreign && !fld.Exported())))
